@@ -254,6 +254,9 @@ func (x *Exec) callFunction(st *State, fn *ssa.Function, args []Value, in ssa.In
 		if origin.Signature.Recv() != nil && (origin.Name() == "Encode" || origin.Name() == "Decode") && hasCodecMethods(origin.Signature.Recv().Type()) {
 			return x.schemaCall(st, origin.Name(), args[0], args[1], in, cc)
 		}
+		if origin.Pkg.Pkg.Path() == modPath+"/codec" && short == "Get" && x.fn != origin {
+			return x.registryGet(st, args)
+		}
 		if fc := x.V.contractFor(origin.Pkg.Pkg.Path(), short); fc != nil {
 			return x.applyContract(st, fc, origin, targs, args, in, cc)
 		}
@@ -748,7 +751,7 @@ func (x *Exec) mapWrite(st *State, m VMap, key Value, val Value, del bool, in ss
 			bv = x.box(st, val)
 		}
 		st.assume(Forall([]*Term{j}, And(Eq(mdom(nm, j), Or(Eq(j, k), mdom(old, j))), Eq(mval(nm, j), Ite(Eq(j, k), bv, mval(old, j)))), mdom(nm, j), mval(nm, j)))
-		x.V.noteMapUpdate(x, st, m.Obj, k, bv, val)
+		x.V.noteMapUpdate(x, st, m.Obj, key, bv, val)
 	}
 	c.MV = nm
 }
